@@ -1,6 +1,7 @@
 """C04 — dependency bounds bubble up exactly."""
 from ..common import Report
 from ..corpus import load, load_repo_tests
+from ..crossgen import load_cross
 from ..wrules import check_fnmod_predicates
 
 RULE_TEXT = ("R-PRED over every fn/mod expansion: the resolved predicate set of each generated impl "
@@ -17,6 +18,7 @@ def run(tier):
     configs = ["plain", "unimock_test"] if tier == "quick" else ["plain", "test", "unimock", "unimock_test"]
     programs = 0
     loaded = [(cfg, load(rep, "pos", cfg)) for cfg in configs]
+    loaded += [(cfg, load_cross(rep, cfg, tier)) for cfg in configs]
     if tier == "thorough":
         loaded.append(("unimock_test", load_repo_tests(rep)))
     for cfg, ld in loaded:
